@@ -177,12 +177,23 @@ func ruleConcurrency(c *Ctx) {
 		}
 	}
 	sort.Strings(syncUses)
-	c.Check(R6, "sync-objects", token.NoPos, fmt.Sprint(syncUses) == "[utils.m:*sync.Mutex]", "[utils.m:*sync.Mutex]", fmt.Sprint(syncUses))
+	okSync := len(syncUses) == 1 && strings.HasPrefix(syncUses[0], "utils.") && strings.HasSuffix(syncUses[0], ":*sync.Mutex")
+	c.Check(R6, "sync-objects", token.NoPos, okSync, "exactly one sync object: the *sync.Mutex field of utils.ReedSolomonEncoder", fmt.Sprint(syncUses))
 
-	// ---- G1 lock discipline on the polynomial cache
+	// ---- G1 lock discipline: fields of a mutex-carrying struct that are written after construction
 	const R1 = "G1-LOCK"
-	c.Doc(R1, "every access to ReedSolomonEncoder.polynomes outside its constructor happens with rs.m held (forward must-analysis of Lock/Unlock over the CFG), all accesses of one call lie in ONE critical section (check-then-act atomicity: the length test, the loop start and the append see the same cache), and every return leaves the mutex released (deferred or explicit)")
+	c.Doc(R1, "for every struct type that carries a sync.Mutex: each field that is stored to outside the struct's constructor (the shared mutable state: ReedSolomonEncoder's polynomial cache) is only accessed with that mutex held (forward must-analysis of Lock/Unlock over the CFG; helpers whose every call site holds the lock count as locked), all accesses of one call lie in ONE critical section (check-then-act atomicity), and every return leaves the mutex released (deferred or explicit)")
 	c.Floor(R1, 5)
+	guarded := guardedFields(c.P, withCanary)
+	c.Count["guarded_fields"] = len(guarded)
+	if len(guarded) == 0 {
+		c.Check(R1, "guarded-fields", token.NoPos, false, "at least the polynomial cache of ReedSolomonEncoder", "no mutex-guarded mutable field found")
+	}
+	type accInfo struct {
+		fn  *ssa.Function
+		acc []ssa.Instruction
+	}
+	var infos []accInfo
 	for _, fn := range withCanary {
 		var accesses []ssa.Instruction
 		eachInstr(fn, func(b *ssa.BasicBlock, ins ssa.Instruction) {
@@ -191,7 +202,7 @@ func ruleConcurrency(c *Ctx) {
 				return
 			}
 			st := fa.X.Type().Underlying().(*types.Pointer).Elem().Underlying().(*types.Struct)
-			if st.Field(fa.Field).Name() != "polynomes" || namedTypeName(fa.X.Type()) != "utils.ReedSolomonEncoder" {
+			if !guarded[st.Field(fa.Field)] {
 				return
 			}
 			if _, fresh := fa.X.(*ssa.Alloc); fresh {
@@ -199,12 +210,35 @@ func ruleConcurrency(c *Ctx) {
 			}
 			accesses = append(accesses, fa)
 		})
-		if len(accesses) == 0 {
-			continue
+		if len(accesses) > 0 {
+			infos = append(infos, accInfo{fn, accesses})
 		}
+	}
+	for _, inf := range infos {
+		fn, accesses := inf.fn, inf.acc
 		name := c.P.FuncName(fn)
 		c.Fn(name)
 		before, deferred := lockStates(fn)
+		anyLock := false
+		for ins := range before {
+			if _, ok := isMutexCall(ins, "Lock"); ok {
+				anyLock = true
+			}
+		}
+		if !anyLock {
+			// a helper: fine if every call site holds the lock (then it belongs to the caller's section)
+			sites := c.P.callSitesOf(fn)
+			allLocked := len(sites) > 0 && fn.Object() != nil && !fn.Object().Exported()
+			for _, s := range sites {
+				cb, _ := lockStates(s.Parent())
+				if !cb[s].locked {
+					allLocked = false
+				}
+			}
+			c.Check(R1, name+"/called-with-lock-held", fn.Pos(), allLocked, "accesses guarded state without locking: every call site must hold the mutex", fmt.Sprintf("%d call sites, all locked=%v", len(sites), allLocked))
+			c.Count["cache_accesses"] += len(accesses)
+			continue
+		}
 		sections := map[ssa.Instruction]bool{}
 		for i, a := range accesses {
 			st := before[a]
@@ -213,9 +247,17 @@ func ruleConcurrency(c *Ctx) {
 				sections[st.section] = true
 			}
 		}
+		// calls to helpers that access guarded state belong to the section of the call
+		for _, other := range infos {
+			for _, s := range c.P.callSitesOf(other.fn) {
+				if s.Parent() == fn && before[s].locked {
+					sections[before[s].section] = true
+				}
+			}
+		}
 		c.Count["cache_accesses"] += len(accesses)
 		_, ambiguous := sections[nil]
-		c.Check(R1, name+"/one-critical-section", fn.Pos(), len(sections) == 1 && !ambiguous, "all cache accesses in one critical section", fmt.Sprintf("%d sections (ambiguous=%v)", len(sections), ambiguous))
+		c.Check(R1, name+"/one-critical-section", fn.Pos(), len(sections) == 1 && !ambiguous, "all accesses to the guarded state in one critical section", fmt.Sprintf("%d sections (ambiguous=%v)", len(sections), ambiguous))
 		for i, ret := range returnsOf(fn) {
 			if len(ret.Block().Preds) == 0 && ret.Block() != fn.Blocks[0] {
 				continue // recover block
@@ -273,7 +315,7 @@ func ruleConcurrency(c *Ctx) {
 			}
 			k++
 			key := fmt.Sprintf("%s/store:%s.%s", name, tn, field)
-			if tn == "utils.ReedSolomonEncoder" && field == "polynomes" {
+			if fa0, isFa := st.Addr.(*ssa.FieldAddr); isFa && guarded[fa0.X.Type().Underlying().(*types.Pointer).Elem().Underlying().(*types.Struct).Field(fa0.Field)] {
 				// must be append(load of the same field, ...)
 				ok := false
 				if call, isCall := st.Val.(*ssa.Call); isCall {
@@ -561,7 +603,7 @@ func storeBase(addr ssa.Value) (ssa.Value, string) {
 		return nil, ""
 	}
 	st := fa.X.Type().Underlying().(*types.Pointer).Elem().Underlying().(*types.Struct)
-	return fa.X, st.Field(fa.Field).Name()
+	return fa.X, fname(st.Field(fa.Field))
 }
 
 // sharedNamedTypes: named struct types reachable from the types of package-level variables.
@@ -741,9 +783,61 @@ func zzVerifCanaryLazy() []int {
 	return zzVerifLazy
 }
 
-func (rs *ReedSolomonEncoder) zzVerifCanaryUnlocked() int {
-	return len(rs.polynomes)
+type zzVerifGuarded struct {
+	mu *zzsync.Mutex
+	xs []int
+}
+
+func (g *zzVerifGuarded) zzVerifGrow() {
+	g.mu.Lock()
+	g.xs = append(g.xs, 1)
+	g.mu.Unlock()
+}
+
+func (g *zzVerifGuarded) zzVerifCanaryUnlocked() int {
+	return len(g.xs)
+}
+
+func zzVerifUseGuarded(g *zzVerifGuarded) int {
+	g.zzVerifGrow()
+	return g.zzVerifCanaryUnlocked()
 }`})
+	canaryImports["utils"] = `import zzsync "sync"`
 	canaryExpect["G2-GLOBAL-WRITES"] = []string{"zzVerifCanaryLazy"}
 	canaryExpect["G1-LOCK"] = []string{"zzVerifCanaryUnlocked"}
+}
+
+// guardedFields: for struct types of the repository that carry a sync.Mutex / *sync.Mutex field,
+// the fields that are stored to through a non-fresh receiver (mutable shared state).
+func guardedFields(p *Prog, fns []*ssa.Function) map[*types.Var]bool {
+	out := map[*types.Var]bool{}
+	hasMutex := func(st *types.Struct) bool {
+		for i := 0; i < st.NumFields(); i++ {
+			if strings.HasSuffix(st.Field(i).Type().String(), "sync.Mutex") || strings.HasSuffix(st.Field(i).Type().String(), "sync.RWMutex") {
+				return true
+			}
+		}
+		return false
+	}
+	for _, fn := range fns {
+		eachInstr(fn, func(b *ssa.BasicBlock, ins ssa.Instruction) {
+			st, ok := ins.(*ssa.Store)
+			if !ok {
+				return
+			}
+			fa, ok := st.Addr.(*ssa.FieldAddr)
+			if !ok {
+				return
+			}
+			if _, fresh := fa.X.(*ssa.Alloc); fresh {
+				return
+			}
+			s, ok := fa.X.Type().Underlying().(*types.Pointer).Elem().Underlying().(*types.Struct)
+			if !ok || !hasMutex(s) {
+				return
+			}
+			out[s.Field(fa.Field)] = true
+		})
+	}
+	return out
 }
